@@ -352,7 +352,7 @@ func c11Pairing(c *Check) {
 			ast.Inspect(fi.Decl.Body, func(x ast.Node) bool {
 				if call, ok := x.(*ast.CallExpr); ok && isCall(fi.Info(), call, "~/"+remoteRel+".remoteDelivery.Close") {
 					n++
-					if fi.Obj.Name() != "Commit" && fi.Obj.Name() != "Abort" {
+					if refName(fi.Obj) != "Commit" && refName(fi.Obj) != "Abort" {
 						okCallers = false
 					}
 				}
